@@ -882,3 +882,380 @@ def mdd_cofactor_model(P, R):
         R.holds('R-VISIT', f.qualname,
                 f'cofactor model ({n} requests): one cofactor per value '
                 'of the variable at the level asked for')
+
+
+class _SpecManager:
+    """A reference manager for models of loaders: reduced, with
+    complemented edges, and strict about what it is handed."""
+
+    def __init__(self, levels):
+        self.levels = dict(levels)
+        self.n = len(levels)
+        self.succ = {1: (self.n, None, None)}
+        self.pred = dict()
+        self.complaints = []
+
+    def level(self, u):
+        return self.succ[abs(u)][0]
+
+    def find_or_add(self, i, v, w):
+        ok = isinstance(i, int) and not isinstance(i, bool) and \
+            0 <= i < self.n
+        if not ok:
+            self.complaints.append(f'find_or_add at level {i!r} of a '
+                                   f'manager with {self.n} variable(s)')
+            raise interp.Raised('ValueError')
+        for x in (v, w):
+            if not isinstance(x, int) or isinstance(x, bool) or \
+                    abs(x) not in self.succ:
+                self.complaints.append(
+                    f'find_or_add({i}, {v}, {w}): {x!r} is not a '
+                    'reference of the manager being built')
+                raise interp.Raised('ValueError')
+            if self.level(x) <= i:
+                self.complaints.append(
+                    f'find_or_add({i}, {v}, {w}): the successor {x} is at '
+                    f'level {self.level(x)}, not below level {i}')
+        s = 1
+        if w < 0:
+            v, w, s = -v, -w, -1
+        if v == w:
+            return s * v
+        t = (i, v, w)
+        if t not in self.pred:
+            u = max(self.succ) + 1
+            self.succ[u] = t
+            self.pred[t] = u
+        return s * self.pred[t]
+
+    def table(self, u, order):
+        """Truth table of reference `u` over variables `order`."""
+        import itertools
+        by_level = {k: v for v, k in self.levels.items()}
+        out = []
+        for bits in itertools.product((False, True), repeat=len(order)):
+            val = dict(zip(order, bits))
+            x, neg = u, False
+            while abs(x) != 1:
+                if x < 0:
+                    neg = not neg
+                i, lo, hi = self.succ[abs(x)]
+                x = hi if val[by_level[i]] else lo
+            if x < 0:
+                neg = not neg
+            out.append(not neg)
+        return tuple(out)
+
+
+def _file_table(nodes, levels, root, order):
+    """Truth table of the function that a DDDMP node table denotes."""
+    import itertools
+    by_level = {k: v for v, k in levels.items()}
+    out = []
+    for bits in itertools.product((False, True), repeat=len(order)):
+        val = dict(zip(order, bits))
+        x, neg = root, False
+        while True:
+            if x < 0:
+                neg = not neg
+            k, lo, hi = nodes[abs(x)]
+            if lo is None:
+                break
+            x = hi if val[by_level[k]] else lo
+        out.append(not neg)
+    return tuple(out)
+
+
+def dddmp_load_model(P, R):
+    """`dd.dddmp.load` interpreted on the output of the parser for small
+    files whose nodes are numbered in no particular order and whose
+    levels have gaps, against a strict reference manager: the manager is
+    built on the variables of the file in their relative order, every
+    node is created after its successors, and the roots denote the
+    functions that the file denotes."""
+    f = P.func('dd.dddmp.load')
+    order = ['a', 'b', 'c']
+    files = [
+        # levels with gaps; node numbers neither bottom-up nor top-down
+        ({'a': 0, 'b': 2, 'c': 5}, 6,
+         {1: (7, None, None), 3: (0, -2, 4), 2: (2, 4, 1),
+          4: (5, -1, 1)}, {3, -2}),
+        ({'c': 1, 'a': 3, 'b': 4}, 5,
+         {5: (1, -2, 3), 1: (6, None, None), 2: (3, 3, 1),
+          3: (4, -1, 1)}, {-5}),
+        ({'a': 0, 'b': 1, 'c': 2}, 3,
+         {1: (4, None, None), 2: (2, -1, 1), 3: (1, 2, 1),
+          4: (0, -3, 2)}, {4, 2}),
+    ]
+    problems = dict()
+    n = 0
+    for levels, n_vars, nodes, roots in files:
+        n += 1
+        state = dict()
+
+        def parse(m, call, args, kw):
+            return (dict(nodes), n_vars, dict(levels), set(roots))
+
+        def new_manager(m, call, args, kw):
+            lv = args[0] if args else kw.get('levels')
+            state['mgr'] = _SpecManager(lv if isinstance(lv, dict)
+                                        else {})
+            state['arg'] = lv
+            state['roots'] = set()
+            return interp.Sym('<bdd>', {'roots': state['roots']})
+
+        def find_or_add(m, call, args, kw):
+            if 'mgr' not in state or len(args) != 3:
+                raise interp.Unknown('find_or_add before the manager')
+            return state['mgr'].find_or_add(*args)
+        stubs = {'Parser': lambda m, c, a, k: interp.Sym('parser'),
+                 'parse': parse, 'BDD': new_manager,
+                 'find_or_add': find_or_add}
+        prm = [p for p in f.params]
+        env = {p: interp.Sym(p) for p in prm}
+        what = f'file with levels {levels}, nodes {nodes}, roots ' \
+            f'{sorted(roots)}'
+        try:
+            out, m = interp.run_function(f.node, env, stubs)
+        except interp.Unknown as e:
+            R.undecided('R-ARGS', f.qualname, 'loader model', str(e))
+            return
+        mgr = state.get('mgr')
+        if mgr is None:
+            problems.setdefault('no-manager', f'{what}: no manager built')
+            continue
+        want_levels = {v: k for k, v in enumerate(
+            sorted(levels, key=levels.get))}
+        if state['arg'] != want_levels:
+            problems.setdefault('levels', (
+                f'{what}: the manager is built with levels '
+                f'{state["arg"]}; the variables of the file in their '
+                f'order give {want_levels}'))
+            continue
+        if out[0] == 'raise':
+            sub = 'not-bottom-up' if out[1] == 'KeyError' else 'raises'
+            problems.setdefault(sub, (
+                f'{what}: the loader raises {out[1]}' + (
+                    ': a node is reached before its successors have '
+                    'been translated (the file may number its nodes in '
+                    'any order)' if sub == 'not-bottom-up' else '')
+                + ''.join('; ' + c for c in mgr.complaints[:2])))
+            continue
+        if mgr.complaints:
+            problems.setdefault('not-bottom-up', (
+                f'{what}: {mgr.complaints[0]}'))
+            continue
+        got_roots = state.get('roots')
+        want = {_file_table(nodes, levels, r, order) for r in roots}
+        try:
+            got = {mgr.table(r, order) for r in (got_roots or set())}
+        except (KeyError, TypeError):
+            got = None
+        if got != want:
+            problems.setdefault('wrong-function', (
+                f'{what}: the roots of the loaded manager '
+                f'({sorted(got_roots or [])} in {mgr.succ}) do not denote '
+                'the functions of the file'))
+    for sub, msg in sorted(problems.items()):
+        R.violation('R-ARGS', sub, f.qualname, 'find_or_add', msg,
+                    unit=f.unit.rel, line=f.lineno)
+    if not problems:
+        R.holds('R-ARGS', f.qualname,
+                f'loader model ({n} files): variables in file order on '
+                'levels 0..n-1, each node built after its successors '
+                'whatever its number, roots denote the functions of the '
+                'file')
+
+
+class ClassStubs(dict):
+    """Stubs that resolve `self.<name>(...)` to the method of the class
+    when it has one (interpreted like `method_stubs`), on demand."""
+
+    def __init__(self, P, cls_qual, extra=None, skip=()):
+        super().__init__(extra or {})
+        self.P = P
+        self.cls = cls_qual
+        self.skip = set(skip)
+
+    def _resolve(self, name):
+        if dict.__contains__(self, name):
+            return True
+        if name in self.skip or not isinstance(name, str):
+            return False
+        f = self.P.func(f'{self.cls}.{name}', required=False)
+        if f is None:
+            return False
+        self[name] = method_stubs(self.P, self.cls, [name])[name]
+        return True
+
+    def __contains__(self, name):
+        return self._resolve(name)
+
+    def __getitem__(self, name):
+        self._resolve(name)
+        return dict.__getitem__(self, name)
+
+
+def dddmp_parser_model(P, R):
+    """The DDDMP parser after the header grammar: `_parse_header` on the
+    header attributes of small files (each .varinfo the reader supports,
+    levels with unused variables in between) and `_parse_body` on their
+    node lines.  The info column of a node line must be looked up in a
+    table keyed by what that column holds for the .varinfo of the file
+    and give the level (permutation ID) of that variable; the levels
+    handed to the loader are those of the same variables; each node line
+    `id info index THEN ELSE` becomes (level, ELSE, THEN) with 0 read as
+    absent; a complemented THEN edge is refused."""
+    hdr = P.func('dd.dddmp.Parser._parse_header')
+    body = P.func('dd.dddmp.Parser._parse_body')
+    support = [('a', 0, 3), ('b', 2, 0), ('c', 4, 4)]   # name, id, permid
+    ordered = ['b', 'x', 'y', 'a', 'c']
+    problems = dict()
+    n = 0
+    tables = dict()
+    for varinfo, with_order in ((0, True), (1, True), (3, True),
+                                (0, False), (1, False)):
+        n += 1
+        attrs = {
+            'self.var_extra_info': varinfo, 'self.n_vars': 5,
+            'self.n_support_vars': 3, 'self.n_nodes': 4,
+            'self.n_roots': 2, 'self.rootids': [4, -2],
+            'self.support_vars': [s[0] for s in support],
+            'self.ordered_vars': list(ordered) if with_order else None,
+            'self.var_ids': [s[1] for s in support],
+            'self.permuted_var_ids': [s[2] for s in support],
+            'self.aux_var_ids': None, 'self.algebraic_dd': False}
+
+        def parse(m, call, args, kw, attrs=attrs):
+            m.env.update(copy.deepcopy(attrs))
+            return True
+        stubs = ClassStubs(P, 'dd.dddmp.Parser', extra={
+            'open': lambda m, c, a, k: iter(
+                ['.ver DDDMP-2.0\n', '.nnodes 4\n', '.nodes\n',
+                 '1 T 1 0 0\n', '.end\n']),
+            'parse': parse, 'input': lambda m, c, a, k: None},
+            skip={'parse'})
+        prm = [p for p in hdr.params if p != 'self']
+        env = {'self': interp.Sym('self'),
+               'self._lexer.lexer': interp.Sym('lexer'),
+               'self.parser': interp.Sym('parser'),
+               'self._lexer': interp.Sym('lexer-owner')}
+        for p in prm:
+            env[p] = None
+        env[prm[0]] = 'file.dddmp'
+        what = (f'.varinfo {varinfo}, support variables (name, id, '
+                f'level) {support}' + (
+                    f', all variables by level {ordered}' if with_order
+                    else ', no .orderedvarnames'))
+        try:
+            out, m = interp.run_function(hdr.node, env, stubs)
+        except interp.Unknown as e:
+            R.undecided('R-KEYS', hdr.qualname, 'header model', str(e))
+            return
+        if out[0] != 'return':
+            if varinfo == 3 and not with_order:
+                continue
+            problems.setdefault('varinfo-table', (
+                f'{what}: the header is refused ({out[0]} {out[1]})'))
+            continue
+        table = m.env.get('self.info2permid')
+        key_of = {0: 1, 1: 2, 3: 0}[varinfo]
+        ok = isinstance(table, dict) and all(
+            table.get(s[key_of]) == s[2] for s in support)
+        if not ok:
+            problems.setdefault(f'varinfo={varinfo}', (
+                f'{what}: the info column of a node line holds the '
+                f'{["name", "ID", "level"][key_of]} of the variable, but '
+                f'the table it is looked up in is {table}: nodes get the '
+                'level of another variable, or the file is refused'))
+            continue
+        top = max(s[2] for s in support)
+        if not (isinstance(table.get('T'), int) and table['T'] > top):
+            problems.setdefault('terminal-level', (
+                f'{what}: the terminal gets level {table.get("T")}, not '
+                f'below the variables (levels up to {top})'))
+        res = out[1]
+        if not (isinstance(res, tuple) and len(res) == 2 and isinstance(
+                res[0], dict)):
+            problems.setdefault('levels', (
+                f'{what}: returns {res}, not (levels, roots)'))
+            continue
+        levels, roots = res
+        if not all(levels.get(s[0]) == s[2] for s in support):
+            problems.setdefault('sibling-tables', (
+                f'{what}: the levels handed to the loader are {levels}; '
+                'the node lines are mapped to levels by '
+                f'{table}: with unused variables in between, nodes are '
+                'built on the wrong variables'))
+        if set(roots) != {4, -2}:
+            problems.setdefault('roots', (
+                f'{what}: roots {roots} instead of the .rootids 4, -2'))
+        tables[varinfo] = table
+    # node lines
+    for varinfo, info in ((3, ['T', 'c', 'b', 'a']),
+                          (0, ['T', '4', '2', '0'])):
+        table = tables.get(varinfo)
+        if table is None:
+            continue
+        for then_complemented in (False, True):
+            n += 1
+            lines = ['.ver DDDMP-2.0\n', '.nnodes 4\n', '.nodes\n',
+                     f'1 {info[0]} 1 0 0\n',
+                     f'2 {info[1]} 4 1 -1\n',
+                     f'3 {info[2]} 2 1 2\n',
+                     (f'4 {info[3]} 0 -2 3\n' if then_complemented
+                      else f'4 {info[3]} 0 2 -3\n'),
+                     '.end\n']
+            stubs = ClassStubs(P, 'dd.dddmp.Parser', extra={
+                'open': lambda m, c, a, k, lines=lines: iter(lines)})
+            prm = [p for p in body.params if p != 'self']
+            env = {'self': interp.Sym('self'),
+                   'self.info2permid': dict(table), 'self.bdd': dict(),
+                   'self.n_nodes': 4, prm[0]: 'file.dddmp'}
+            what = f'node lines {[x.strip() for x in lines[3:-1]]}'
+            try:
+                out, m = interp.run_function(body.node, env, stubs)
+            except interp.Unknown as e:
+                R.undecided('R-ROLE', body.qualname, 'node-line model',
+                            str(e))
+                return
+            if then_complemented:
+                if out[0] != 'raise':
+                    problems.setdefault('complemented-then', (
+                        f'{what}: a complemented THEN edge is accepted'))
+                continue
+            lv = {s[0]: s[2] for s in support}
+            want = {1: (table['T'], None, None),
+                    2: (lv['c'], -1, 1), 3: (lv['b'], 2, 1),
+                    4: (lv['a'], -3, 2)}
+            got = m.env.get('self.bdd')
+            if out[0] == 'raise':
+                problems.setdefault('node-line', (
+                    f'{what}: refused ({out[1]})'))
+            elif got != want:
+                swapped = isinstance(got, dict) and all(
+                    isinstance(t, tuple) and len(t) == 3
+                    for t in got.values()) and {
+                        u: (t[0], t[2], t[1]) for u, t in got.items()} \
+                    == want
+                problems.setdefault(
+                    'swapped-edges' if swapped else 'node-line', (
+                        f'{what} (id info index THEN ELSE): the node '
+                        f'table is {got}; (level, ELSE, THEN) gives '
+                        f'{want}'))
+    rules = {'swapped-edges': 'R-ROLE', 'node-line': 'R-ROLE',
+             'complemented-then': 'R-ROLE'}
+    for sub, msg in sorted(problems.items()):
+        f = body if sub in rules else hdr
+        key_sub = 'varinfo-table' if sub.startswith('varinfo=') else sub
+        R.violation(rules.get(sub, 'R-KEYS'), key_sub, f.qualname,
+                    sub if sub.startswith('varinfo=') else (
+                        'info2permid' if f is hdr else '_add_node'), msg,
+                    unit=f.unit.rel, line=f.lineno)
+    if not problems:
+        R.holds('R-KEYS', hdr.qualname,
+                f'parser model ({n} runs): for .varinfo 0, 1, 3 the info '
+                'column is looked up by what it holds and gives the '
+                'level of that variable; the levels handed to the loader '
+                'are those of the same variables; node lines become '
+                '(level, ELSE, THEN)')
